@@ -100,7 +100,7 @@ func VerifC17_GetResults() {
 		nctx := verif_Choose("contextualSets", 0, 1+verif_Tier())
 		for i := 0; i < nctx; i++ {
 			c := model.ContextualExtendedProviders{Override: verif_Bool("override"), ContextID: verif_Str("setContextID", 1)}
-			c.Providers, c.Metadatas = c17lists("ctx", 2)
+			c.Providers, c.Metadatas = c17lists("ctx", 2-i) // a second set (thorough tier) is kept smaller
 			if len(c.Providers) != len(c.Metadatas) {
 				equalLens = false
 			}
